@@ -151,6 +151,16 @@ class Lower:
         for d in n.declarators:
             name = decl_name(d)
             ty = type_str(n.base_type, d)
+            dd = d
+            while dd is not None:
+                if type(dd).__name__ == "CArrayDeclaratorNode":
+                    dim = getattr(dd, "dimension", None)
+                    if type(dim).__name__ == "IntNode":
+                        scope = "<function>" if self._func_meta is not None else (self._cls or "<module>")
+                        self.meta.setdefault("array_dims", {}).setdefault(scope, {})[name] = int(str(dim.value), 0)
+                        if self._func_meta is not None:
+                            self._func_meta.setdefault("array_dims", {})[name] = int(str(dim.value), 0)
+                dd = getattr(dd, "base", None)
             if self._func_meta is not None:
                 self._func_meta["locals"][name] = ty
             elif self._cls is not None:
